@@ -162,6 +162,11 @@ def units():
                  "exactly_height_rows_of_N_COMP_times_width_components": sh("IMP(__verif_exc == 0, g_rows == $3 && g_row_bytes_ok == (unsigned long)$3)"),
                  "each_written_component_is_the_selected_channel_of_the_right_pixel": sh("IMP(__verif_exc == 0, %s)" % eq),
                  "file_is_closed_exactly_once": "IMP(__verif_exc == 0, g_closed == 1)"})
+    # (contracts/tracegen.py holds an unfinished unit for TraceRecorder::saveLog -- extraction and contracts are written, but CBMC runs out of
+    #  memory (12 GB) on its loop-invariant obligations; it is NOT part of the check. Set VERIF_TRACE_UNIT=1 to run it.)
+    if os.environ.get("VERIF_TRACE_UNIT"):
+        import tracegen
+        return [U, tracegen.trace_unit()]
     return [U]
 
 
